@@ -1354,6 +1354,12 @@ def check(ctx):
     rep.rule('D4', 'next_taxon, evaluated on the finite lineage domain: nearest threshold-bearing taxon below the first one whose threshold covers the distance; topmost threshold-bearing one when none does')
     rep.rule('D5', 'reportable_taxon, evaluated on chains with report flags True/False/None: None passthrough, first ancestor-or-self with report')
     rep.rule('D6', 'get_result_item: classify of this row; report taxon from predicted taxon; strict only from params')
+    # the outcome is a function of the database and the query at hand: the per-row computation (get_result_item -> classify -> lineage
+    # walks) writes nothing outside its own locals and the modules keep no mutable state (a memo keyed by row ids would carry one
+    # database's thresholds into the next) - C08-A6 re-evaluated under this property, before the bounded evaluation
+    from . import c08 as _c08
+    rep.rule('A6', 'C08-A6 re-evaluated: effect analysis over the per-row call-graph closure: no write outside locals; no module-level mutable state')
+    _c08.check_independence(ctx)
     rep.rule('D8', 'gambit query: non-strict unless --strict is given; the parameter object built from the command line is what the query functions get')
     from ..clirules import check_query_cli_params
     check_query_cli_params(rep, ctx.model, 'D8')
